@@ -121,4 +121,352 @@ class CompressH(_Arr):
         return {"violated": bad, "detail": {"array": w["e"], "got": got, "want": want}}
 
 
-HARNESSES = [CompressH()]
+class RankingH(_Arr):
+    """integer_ndarray.ranking and ndint_compress(method='rank') on 1-D arrays (and ranking row by row on 2-D): a dense,
+    order-preserving ranking -- equal entries get equal ranks, a larger entry a larger rank, the ranks used are consecutive
+    integers starting at 1 if the smallest entry is positive and at 0 otherwise."""
+    name = "integer_ndarray.ranking"
+    function = "integer_ndarray.ranking"
+    functions = ["integer_ndarray.ranking", "integer_ndarray.ndint_compress"]
+
+    def cases(self):
+        return [{"n": 1, "via": "ranking"}, {"n": 2, "via": "ranking"}, {"n": 3, "via": "ranking"}, {"n": 3, "via": "rank"},
+                {"n": 2, "via": "ranking2d"}]
+
+    def setup(self, c, case):
+        pnd = c.repo.load("puan.ndarray")
+        n = case["n"]
+        if case["via"] == "ranking2d":
+            e = [[SInt(z3.Int(f"e{i}{j}")) for j in range(n)] for i in range(2)]
+            flat = [x for r_ in e for x in r_]
+        else:
+            e = [SInt(z3.Int(f"e{j}")) for j in range(n)]
+            flat = e
+        for x in flat:
+            c.assume_global(z3.And(x.t > -(2 ** 62), x.t < 2 ** 62))
+        return {"arr": pnd.integer_ndarray(e), "e": e}
+
+    def run(self, c, st):
+        self.begin_call(c)
+        via = c.state_case["via"]
+        if via == "rank":
+            return st["arr"].ndint_compress(method="rank")
+        return st["arr"].ranking()
+
+    @staticmethod
+    def _dense(line, res):
+        n = len(line)
+        out = []
+        for i in range(n):
+            for j in range(n):
+                out.append(band((line[i] < line[j]) == (res[i] < res[j]), (line[i] == line[j]) == (res[i] == res[j])))
+        order = band(*out) if out else True
+        # consecutive: every rank is the start or one more than the rank of some entry
+        mn = line[0]
+        for x in line[1:]:
+            mn = site(x < mn, x, mn)
+        start = site(mn > 0, 1, 0)
+        cons = True
+        for i in range(n):
+            pred = res[i] == start
+            for j in range(n):
+                pred = bor(pred, res[i] == res[j] + 1)
+            cons = band(cons, pred, res[i] >= start)
+        low = bor(*[band(line[i] == mn, res[i] == start) for i in range(n)])
+        return order, band(cons, low)
+
+    def ensures(self, c, st, res):
+        e = st["e"]
+        rows = e if c.state_case["via"] == "ranking2d" else [e]
+        got = res if c.state_case["via"] == "ranking2d" else [res]
+        out = [("ranking.shape", len(got) == len(rows) and all(len(g) == len(r_) for g, r_ in zip(got, rows)))]
+        if not out[0][1]:
+            return out
+        for k, (line, g) in enumerate(zip(rows, got)):
+            order, dense = self._dense(list(line), [g[j] for j in range(len(line))])
+            out.append((f"ranking.order-preserving[{k}]", order))
+            out.append((f"ranking.dense[{k}]", dense))
+        return out
+
+    def concretise(self, case, k, model, c, st):
+        from .common import _mv
+        e = st["e"]
+        g = lambda v: _mv(model, v.t)
+        return {"case": dict(case), "e": [[g(x) for x in r_] for r_ in e] if case["via"] == "ranking2d" else [g(x) for x in e]}
+
+    def replay(self, w):
+        import numpy as np
+        import puan.ndarray as pnd
+        arr = pnd.integer_ndarray(np.array(w["e"], dtype=np.int64))
+        res = arr.ndint_compress(method="rank") if w["case"]["via"] == "rank" else arr.ranking()
+        rows = w["e"] if w["case"]["via"] == "ranking2d" else [w["e"]]
+        got = np.asarray(res).tolist() if w["case"]["via"] == "ranking2d" else [np.asarray(res).tolist()]
+        violated = []
+        for k, (line, g) in enumerate(zip(rows, got)):
+            n = len(line)
+            if not all(((line[i] < line[j]) == (g[i] < g[j])) and ((line[i] == line[j]) == (g[i] == g[j])) for i in range(n) for j in range(n)):
+                violated.append(f"ranking.order-preserving[{k}]")
+            start = 1 if min(line) > 0 else 0
+            if sorted(set(g)) != list(range(start, start + len(set(line)))):
+                violated.append(f"ranking.dense[{k}]")
+        return {"violated": violated, "detail": {"input": w["e"], "result": got}}
+
+
+class ShadowH(_Arr):
+    """ndint_compress(method='shadow') through the real Python code with the compiled bit allocation replaced by the
+    executable form of its assumed contract A-rs2 (pyvc.rsmodel): for 1-D and small 2-D arrays with symbolic entries the
+    result keeps zeros and signs, gives equal effective priorities equal weights, orders weights like the priorities
+    (later rows above earlier rows) and makes every weight strictly larger than the sum of the absolute weights of all
+    lower priorities."""
+    name = "integer_ndarray.ndint_compress(shadow)"
+    function = "integer_ndarray.ndint_compress"
+    functions = ["integer_ndarray.ndint_compress", "integer_ndarray.reduce2d"]
+    rs_model = True
+
+    def cases(self):
+        import os
+        shapes = [(1, 2), (1, 3), (2, 1), (2, 2)]
+        if os.environ.get("PYVC_TIER") == "thorough":
+            shapes += [(2, 3), (3, 2)]
+        out = [{"shape": list(sh), "axis": ax} for sh in shapes for ax in (0, 1)]
+        out += [{"shape": [n], "axis": None} for n in (1, 2, 3)]
+        return out
+
+    def setup(self, c, case):
+        pnd = c.repo.load("puan.ndarray")
+        sh = case["shape"]
+        if len(sh) == 2:
+            e = [[SInt(z3.Int(f"e{i}{j}")) for j in range(sh[1])] for i in range(sh[0])]
+            flat = [x for r_ in e for x in r_]
+        else:
+            e = [SInt(z3.Int(f"e{j}")) for j in range(sh[0])]
+            flat = e
+        for x in flat:
+            c.assume_global(z3.And(x.t > -(2 ** 31), x.t < 2 ** 31))
+        return {"e": e, "arr": pnd.integer_ndarray(e)}
+
+    def run(self, c, st):
+        self.begin_call(c)
+        ax = c.state_case["axis"]
+        return st["arr"].ndint_compress(method="shadow", axis=ax) if ax is not None else st["arr"].ndint_compress(method="shadow")
+
+    def ensures(self, c, st, res):
+        case = c.state_case
+        if len(case["shape"]) == 2:
+            lines = PrioH._lines(st["e"], case["axis"])
+        else:
+            lines = [[x] for x in st["e"]]          # 1-D: one level, every entry its own column
+        w = len(lines)
+        out = [("shadow.shape", tuple(res.shape) == (w,))]
+        if not out[0][1]:
+            return out
+        idx, mag, sgn = [], [], []
+        for ln in lines:
+            i_, v_ = -1, 0
+            for k, x in enumerate(ln):
+                i_ = site(x != 0, k, i_)
+                v_ = site(x != 0, x, v_)
+            idx.append(i_)
+            mag.append(site(v_ < 0, -v_, v_))
+            sgn.append(v_)
+        ab = lambda x: site(x < 0, -x, x)
+        zs = True
+        for j in range(w):
+            zs = band(zs, (res[j] == 0) == (sgn[j] == 0), (res[j] > 0) == (sgn[j] > 0))
+        order = True
+        for j in range(w):
+            for k in range(w):
+                both = band(sgn[j] != 0, sgn[k] != 0)
+                eq = band(idx[j] == idx[k], mag[j] == mag[k])
+                lt = bor(idx[j] < idx[k], band(idx[j] == idx[k], mag[j] < mag[k]))
+                order = band(order, implies(band(both, eq), ab(res[j]) == ab(res[k])), implies(band(both, lt), ab(res[j]) < ab(res[k])))
+        dom = True
+        for j in range(w):
+            lower = 0
+            for k in range(w):
+                lt = bor(idx[k] < idx[j], band(idx[k] == idx[j], mag[k] < mag[j]))
+                lower = lower + site(band(sgn[k] != 0, sgn[j] != 0, lt), ab(res[k]), 0)
+            dom = band(dom, implies(sgn[j] != 0, ab(res[j]) > lower))
+        out += [("shadow.zero-and-sign", zs), ("shadow.order", order), ("shadow.dominance", dom)]
+        return out
+
+    def concretise(self, case, k, model, c, st):
+        from .common import _mv
+        e = st["e"]
+        g = lambda v: _mv(model, v.t)
+        return {"case": dict(case), "e": [[g(x) for x in r_] for r_ in e] if len(case["shape"]) == 2 else [g(x) for x in e]}
+
+    def replay(self, w):
+        import numpy as np
+        import puan.ndarray as pnd
+        arr = np.array(w["e"], dtype=np.int64)
+        ax = w["case"]["axis"]
+        got = np.asarray(pnd.integer_ndarray(arr.copy()).ndint_compress(method="shadow", axis=ax) if ax is not None
+                         else pnd.integer_ndarray(arr.copy()).ndint_compress(method="shadow")).tolist()
+        if arr.ndim == 2:
+            lines = arr.T.tolist() if ax == 0 else arr.tolist()
+        else:
+            lines = [[x] for x in arr.tolist()]
+        width = len(lines)
+        eff = []
+        for ln in lines:
+            ix = [k for k, x in enumerate(ln) if x != 0]
+            eff.append((ix[-1], abs(ln[ix[-1]]), 1 if ln[ix[-1]] > 0 else -1) if ix else None)
+        violated = []
+        if len(got) != width:
+            return {"violated": ["shadow.shape"], "detail": {"result": got}}
+        if any((got[j] == 0) != (eff[j] is None) or (eff[j] is not None and (got[j] > 0) != (eff[j][2] > 0)) for j in range(width)):
+            violated.append("shadow.zero-and-sign")
+        bad_o, bad_d = False, False
+        for j in range(width):
+            if not eff[j]:
+                continue
+            lower = 0
+            for k in range(width):
+                if eff[k]:
+                    if eff[j][:2] == eff[k][:2] and abs(got[j]) != abs(got[k]):
+                        bad_o = True
+                    if eff[k][:2] < eff[j][:2]:
+                        lower += abs(got[k])
+                        if not abs(got[k]) < abs(got[j]):
+                            bad_o = True
+            if not abs(got[j]) > lower:
+                bad_d = True
+        if bad_o:
+            violated.append("shadow.order")
+        if bad_d:
+            violated.append("shadow.dominance")
+        return {"violated": violated, "detail": {"input": w["e"], "axis": ax, "shadow": got}}
+
+
+class PrioH(_Arr):
+    """ndint_compress(method='prio' | 'rank') on 2-D arrays with symbolic entries (both axes).  With the effective priority of
+    an output position = (index of the last non-zero entry along the axis, its absolute value) and the sign of that entry:
+    'prio' is 0 exactly where the line is all zero, carries the sign, orders magnitudes like the effective priorities (equal
+    priorities equal magnitudes, later rows above earlier rows) and uses the magnitudes 1..m densely; 'rank' is a dense
+    order-preserving ranking of the signed 'prio' vector starting at 0 or 1."""
+    name = "integer_ndarray.ndint_compress(prio,rank)"
+    function = "integer_ndarray.ndint_compress"
+    functions = ["integer_ndarray.ndint_compress", "integer_ndarray.reduce2d", "integer_ndarray.ranking"]
+
+    def cases(self):
+        import os
+        shapes = [(1, 2), (2, 1), (2, 2)]
+        if os.environ.get("PYVC_TIER") == "thorough":
+            shapes += [(2, 3), (3, 2)]
+        return [{"shape": list(sh), "axis": ax} for sh in shapes for ax in (0, 1)]
+
+    def setup(self, c, case):
+        pnd = c.repo.load("puan.ndarray")
+        r_, k_ = case["shape"]
+        e = [[SInt(z3.Int(f"e{i}{j}")) for j in range(k_)] for i in range(r_)]
+        for row in e:
+            for x in row:
+                c.assume_global(z3.And(x.t > -(2 ** 31), x.t < 2 ** 31))
+        return {"e": e, "mk": lambda: pnd.integer_ndarray([list(row) for row in e])}
+
+    def run(self, c, st):
+        self.begin_call(c)
+        ax = c.state_case["axis"]
+        prio = st["mk"]().ndint_compress(method="prio", axis=ax)
+        c.nd_epoch += 1
+        rank = st["mk"]().ndint_compress(method="rank", axis=ax)
+        return {"prio": prio, "rank": rank}
+
+    @staticmethod
+    def _lines(e, axis):
+        return [[e[i][j] for i in range(len(e))] for j in range(len(e[0]))] if axis == 0 else [list(r_) for r_ in e]
+
+    def ensures(self, c, st, res):
+        lines = self._lines(st["e"], c.state_case["axis"])
+        w = len(lines)
+        pr, rk = res["prio"], res["rank"]
+        out = [("prio.shape", tuple(pr.shape) == (w,) and tuple(rk.shape) == (w,))]
+        if not out[0][1]:
+            return out
+        idx, mag, sgn = [], [], []
+        for ln in lines:
+            i_, v_ = -1, 0
+            for k, x in enumerate(ln):
+                i_ = site(x != 0, k, i_)
+                v_ = site(x != 0, x, v_)
+            idx.append(i_)
+            mag.append(site(v_ < 0, -v_, v_))
+            sgn.append(v_)
+        ab = lambda x: site(x < 0, -x, x)
+        zero_sign = True
+        for j in range(w):
+            zero_sign = band(zero_sign, (pr[j] == 0) == (sgn[j] == 0), (pr[j] > 0) == (sgn[j] > 0))
+        order = True
+        for j in range(w):
+            for k in range(w):
+                both = band(sgn[j] != 0, sgn[k] != 0)
+                eq = band(idx[j] == idx[k], mag[j] == mag[k])
+                lt = bor(idx[j] < idx[k], band(idx[j] == idx[k], mag[j] < mag[k]))
+                order = band(order, implies(band(both, eq), ab(pr[j]) == ab(pr[k])), implies(band(both, lt), ab(pr[j]) < ab(pr[k])))
+        dense = True
+        for j in range(w):
+            pred = ab(pr[j]) == 1
+            for k in range(w):
+                pred = bor(pred, ab(pr[j]) == ab(pr[k]) + 1)
+            dense = band(dense, implies(pr[j] != 0, pred))
+        riso = True
+        for j in range(w):
+            for k in range(w):
+                riso = band(riso, (pr[j] < pr[k]) == (rk[j] < rk[k]), (pr[j] == pr[k]) == (rk[j] == rk[k]))
+        rdense = True
+        mn = rk[0]
+        for x in [rk[j] for j in range(1, w)]:
+            mn = site(x < mn, x, mn)
+        for j in range(w):
+            pred = rk[j] == mn
+            for k in range(w):
+                pred = bor(pred, rk[j] == rk[k] + 1)
+            rdense = band(rdense, pred)
+        rdense = band(rdense, bor(mn == 0, mn == 1))
+        out += [("prio.zero-and-sign", zero_sign), ("prio.order", order), ("prio.dense", dense),
+                ("rank.order-isomorphic-to-prio", riso), ("rank.dense", rdense)]
+        return out
+
+    def concretise(self, case, k, model, c, st):
+        from .common import _mv
+        return {"case": dict(case), "e": [[_mv(model, x.t) for x in row] for row in st["e"]]}
+
+    def replay(self, w):
+        import numpy as np
+        import puan.ndarray as pnd
+        arr = np.array(w["e"], dtype=np.int64)
+        ax = w["case"]["axis"]
+        pr = np.asarray(pnd.integer_ndarray(arr.copy()).ndint_compress(method="prio", axis=ax)).tolist()
+        rk = np.asarray(pnd.integer_ndarray(arr.copy()).ndint_compress(method="rank", axis=ax)).tolist()
+        lines = arr.T.tolist() if ax == 0 else arr.tolist()
+        width = len(lines)
+        eff = []
+        for ln in lines:
+            ix = [k for k, x in enumerate(ln) if x != 0]
+            eff.append((ix[-1], abs(ln[ix[-1]]), 1 if ln[ix[-1]] > 0 else -1) if ix else None)
+        violated = []
+        if any((pr[j] == 0) != (eff[j] is None) or (eff[j] is not None and (pr[j] > 0) != (eff[j][2] > 0)) for j in range(width)):
+            violated.append("prio.zero-and-sign")
+        bad_order = False
+        for j in range(width):
+            for k in range(width):
+                if eff[j] and eff[k]:
+                    if eff[j][:2] == eff[k][:2] and abs(pr[j]) != abs(pr[k]):
+                        bad_order = True
+                    if eff[j][:2] < eff[k][:2] and not abs(pr[j]) < abs(pr[k]):
+                        bad_order = True
+        if bad_order:
+            violated.append("prio.order")
+        mags = sorted({abs(x) for x in pr if x != 0})
+        if mags != list(range(1, len(mags) + 1)):
+            violated.append("prio.dense")
+        if not all((pr[j] < pr[k]) == (rk[j] < rk[k]) and (pr[j] == pr[k]) == (rk[j] == rk[k]) for j in range(width) for k in range(width)):
+            violated.append("rank.order-isomorphic-to-prio")
+        vals = sorted(set(rk))
+        if not (vals == list(range(vals[0], vals[0] + len(vals))) and vals[0] in (0, 1)):
+            violated.append("rank.dense")
+        return {"violated": violated, "detail": {"input": w["e"], "axis": ax, "prio": pr, "rank": rk}}
+
+
+HARNESSES = [RankingH(), PrioH(), ShadowH(), CompressH()]
